@@ -3,19 +3,36 @@ package main
 // Translator "kafka" (property C10): reads plugin/input/kafka/kafka.go (+ client.go, pipeline/*.go for
 // the SourceID type) and emits Gen/KafkaGen.v:
 //   gen_assembleSourceID / gen_disassembleSourceID / gen_assembleOffset / gen_disassembleOffset
-//       the bodies of the four packing functions, translated expression by expression into the
-//       fixed-width integer operators of coq/Model/KafkaInt.v (go_shl, go_shr, go_and, go_add,
-//       go_conv ...), with the operand types inferred from the Go declarations; every shift width,
-//       mask and the `+ 1` therefore comes from the source text;
-//   gen_commit_target   the data flow of Plugin.Commit (which unpacked value becomes the topic
-//       index, the partition key and the marked EpochOffset) — recognised by shape, refused otherwise;
+//       the bodies of the four packing functions, translated statement by statement and expression
+//       by expression into the fixed-width integer operators of coq/Model/KafkaInt.v (go_shl, go_shr,
+//       go_and, go_add, go_mul, go_conv ...), with the operand types inferred from the Go
+//       declarations; every shift width, mask, factor and the `+ 1` therefore comes from the source text;
+//   gen_commit_target   the data flow of Plugin.Commit: the body is executed symbolically (helper
+//       functions and methods of *Plugin are inlined) and the single-entry map handed to
+//       p.client.MarkCommitOffsets is read off: (index of p.config.Topics, partition key, EpochOffset);
 //   gen_autocommit_marks   NewClient passes kgo.AutoCommitMarks() (without it MarkCommitOffsets is a
 //       no-op and kgo would auto-commit everything polled);
 //   gen_use_spread      Start calls UseSpread() and DisableStreams() (input to the frontier clause).
-// Supported Go fragment: straight-line `x := e` / `x = e` / `return`, integer expressions over
-// + - << >> & |, conversions to int/int32/int64/uint64/pipeline.SourceID, integer literals,
-// parameters, `message.Offset` / `message.LeaderEpoch`, the composite literal kgo.EpochOffset{...}.
-// Anything else makes the translator fail (the tie is then reported broken).
+//
+// Supported Go fragment (straight-line code only — no if / for / switch / defer / go / closures):
+//   statements   `x := e`, `x = e`, `a, b := e1, e2`, `a, b := f(..)`, `x op= e`, `x++`/`x--`,
+//                `var x T`, `var x T = e`, `var x = e`, local `const`, `x.F = e` on a local
+//                kgo.EpochOffset, `m[k] = v` on a local map, `return ...` (last statement, also bare with
+//                named results), and in Commit the final `p.client.MarkCommitOffsets(m)`;
+//   integers     literals, parameters, locals, package-level and local integer constants (untyped or of
+//                an integer type; constant expressions over + - * << >> & | and parentheses; no iota),
+//                + - * << >> & | (shift counts must be constants), unary + -, conversions to
+//                int/uint/int8..int64/uint8..uint64/byte/pipeline.SourceID,
+//                `message.Offset`/`message.LeaderEpoch` of a *kgo.Record parameter,
+//                `event.SourceID`/`event.Offset` of a *pipeline.Event parameter, `x.Offset`/`x.Epoch`;
+//   other values kgo.EpochOffset (composite literal with field names, or a local built by field
+//                assignments), p.config.Topics[i] (a topic, represented by its index i), the two map types
+//                map[int32]kgo.EpochOffset and map[string]map[int32]kgo.EpochOffset (literal or make +
+//                index assignment; maps are objects, aliasing is followed);
+//   calls        the four packing functions (referenced as gen_*), any other function of kafka.go or
+//                method of *Plugin whose body is in this fragment (inlined, no recursion).
+// Every Go variable assignment gets a fresh Gallina name (SSA), so a Gallina `let` never shadows.
+// Anything else makes the translator fail with file:line (the tie is then reported broken).
 
 import (
 	"fmt"
@@ -35,25 +52,144 @@ func init() { gens["kafka"] = genKafka }
 type kty string
 
 const (
+	kI8  kty = "I8"
+	kI16 kty = "I16"
 	kI32 kty = "I32"
 	kI64 kty = "I64"
+	kU8  kty = "U8"
+	kU16 kty = "U16"
+	kU32 kty = "U32"
 	kU64 kty = "U64"
+)
+
+func kBits(t kty) (uint, bool) {
+	switch t {
+	case kI8:
+		return 8, true
+	case kI16:
+		return 16, true
+	case kI32:
+		return 32, true
+	case kI64:
+		return 64, true
+	case kU8:
+		return 8, false
+	case kU16:
+		return 16, false
+	case kU32:
+		return 32, false
+	}
+	return 64, false
+}
+
+// Go type names of the integer types (int and uint are 64 bit: checked by the harness)
+func kIntTypeNames() map[string]kty {
+	return map[string]kty{
+		"int": kI64, "int64": kI64, "int32": kI32, "int16": kI16, "int8": kI8,
+		"uint": kU64, "uint64": kU64, "uint32": kU32, "uint16": kU16, "uint8": kU8, "byte": kU8,
+	}
+}
+
+const (
+	kTyEO     = "kgo.EpochOffset"
+	kTyInner  = "map[int32]kgo.EpochOffset"
+	kTyOuter  = "map[string]map[int32]kgo.EpochOffset"
+	kTyEvent  = "*pipeline.Event"
+	kTyRecord = "*kgo.Record"
+	kTyString = "string"
 )
 
 type kval struct {
 	term string   // Coq term
 	ty   kty      // "" for an untyped constant
-	c    *big.Int // value of an untyped constant
+	c    *big.Int // value when the expression is a Go constant (typed or untyped)
 }
 
-type kenv struct {
-	vars      map[string]kty    // local variables / parameters
-	recParams map[string]bool   // parameters of type *kgo.Record
-	typeNames map[string]kty    // conversions: rendered type expression -> ity
+type kkind int
+
+const (
+	vInt    kkind = iota
+	vEO           // kgo.EpochOffset: Coq terms of the two fields
+	vTopic        // p.config.Topics[idx]: Coq term of the index
+	vMap          // a map object
+	vEvent        // *pipeline.Event parameter (fields are Coq parameters prefix_SourceID / prefix_Offset)
+	vRecord       // *kgo.Record parameter (prefix_Offset / prefix_LeaderEpoch)
+	vRecv         // the *Plugin receiver
+)
+
+type kvalue struct {
+	kind       kkind
+	i          kval
+	off, epoch string
+	idx        string
+	m          *kmap
+	prefix     string
+}
+
+type kentry struct{ key, val kvalue }
+type kmap struct {
+	ty      string // kTyInner or kTyOuter
+	entries []kentry
+}
+
+type kconst struct {
+	spec  *ast.ValueSpec
+	pos   int // index of the name in the spec
+	state int // 0 = not evaluated, 1 = being evaluated, 2 = done
+	v     kval
+}
+
+// kbuild: one Coq definition under construction
+type kbuild struct {
 	fset      *token.FileSet
+	typeNames map[string]kty
+	consts    map[string]*kconst
+	funcs     map[string]*ast.FuncDecl // package-level functions of kafka.go
+	methods   map[string]*ast.FuncDecl // methods of *Plugin
+	gen       map[string]bool          // functions that have their own gen_ definition
+	lets      []string
+	used      map[string]bool
+	stack     []string
+	effect    *kvalue // argument of p.client.MarkCommitOffsets
 }
 
-func (e *kenv) pos(n ast.Node) string { return e.fset.Position(n.Pos()).String() }
+type kvar struct{ val kvalue }
+
+// kframe: one function activation
+type kframe struct {
+	b       *kbuild
+	vars    map[string]*kvar
+	lconsts map[string]kval
+	recv    string
+	prefix  string
+	top     bool // the body of Plugin.Commit itself: the effect is allowed here
+}
+
+var kReserved = []string{
+	// Gallina keywords and the names the generated terms use
+	"as", "at", "cofix", "else", "end", "exists", "exists2", "fix", "for", "forall", "fun", "if", "IF",
+	"in", "let", "match", "mod", "Prop", "return", "Set", "then", "Type", "using", "where", "with", "SProp",
+	"fst", "snd", "pair", "Z", "nat", "N", "bool", "true", "false", "Definition",
+	"I8", "I16", "I32", "I64", "U8", "U16", "U32", "U64", "ity",
+	"go_conv", "go_add", "go_sub", "go_mul", "go_shl", "go_shr", "go_and", "go_or", "go_wrap", "go_fits", "go_min", "go_max",
+	"gen_assembleSourceID", "gen_disassembleSourceID", "gen_assembleOffset", "gen_disassembleOffset",
+	"gen_commit_target", "gen_autocommit_marks", "gen_use_spread",
+}
+
+func (b *kbuild) pos(n ast.Node) string { return b.fset.Position(n.Pos()).String() }
+
+func (b *kbuild) fresh(base string) string {
+	name := base
+	for k := 1; b.used[name]; k++ {
+		name = fmt.Sprintf("%s_%d", base, k)
+	}
+	b.used[name] = true
+	return name
+}
+
+func (b *kbuild) let(name, term string) {
+	b.lets = append(b.lets, fmt.Sprintf("  let %s := %s in", name, term))
+}
 
 func kTypeString(x ast.Expr) string {
 	switch t := x.(type) {
@@ -63,6 +199,10 @@ func kTypeString(x ast.Expr) string {
 		return kTypeString(t.X) + "." + t.Sel.Name
 	case *ast.StarExpr:
 		return "*" + kTypeString(t.X)
+	case *ast.MapType:
+		return "map[" + kTypeString(t.Key) + "]" + kTypeString(t.Value)
+	case *ast.ParenExpr:
+		return kTypeString(t.X)
 	}
 	return "?"
 }
@@ -75,335 +215,493 @@ func kLit(c *big.Int) string {
 }
 
 func kFits(c *big.Int, t kty) bool {
+	bits, signed := kBits(t)
 	lo, hi := new(big.Int), new(big.Int)
-	switch t {
-	case kI32:
-		lo.SetInt64(-1 << 31)
-		hi.SetInt64(1<<31 - 1)
-	case kI64:
-		lo.SetInt64(-1 << 63)
-		hi.SetInt64(1<<63 - 1)
-	case kU64:
-		lo.SetInt64(0)
-		hi.SetUint64(^uint64(0))
+	one := big.NewInt(1)
+	if signed {
+		hi.Lsh(one, bits-1)
+		lo.Neg(hi)
+		hi.Sub(hi, one)
+	} else {
+		hi.Lsh(one, bits)
+		hi.Sub(hi, one)
 	}
 	return c.Cmp(lo) >= 0 && c.Cmp(hi) <= 0
 }
 
 // asTyped gives an untyped constant the type t (Go: the constant must be representable in t)
-func (e *kenv) asTyped(v kval, t kty, at ast.Node) (kval, error) {
+func (b *kbuild) asTyped(v kval, t kty, at ast.Node) (kval, error) {
 	if v.ty != "" {
 		if v.ty != t {
-			return v, fmt.Errorf("%s: operand of type %s where %s is required", e.pos(at), v.ty, t)
+			return v, fmt.Errorf("%s: operand of type %s where %s is required", b.pos(at), v.ty, t)
 		}
 		return v, nil
 	}
-	if !kFits(v.c, t) {
-		return v, fmt.Errorf("%s: constant %s overflows %s", e.pos(at), v.c, t)
+	if v.c == nil {
+		return v, fmt.Errorf("%s: internal: untyped value without a constant", b.pos(at))
 	}
-	return kval{term: kLit(v.c), ty: t}, nil
+	if !kFits(v.c, t) {
+		return v, fmt.Errorf("%s: constant %s overflows %s", b.pos(at), v.c, t)
+	}
+	return kval{term: kLit(v.c), ty: t, c: v.c}, nil
 }
 
-func (e *kenv) expr(x ast.Expr) (kval, error) {
+func kConstVal(c *big.Int, t kty) kval {
+	if t == "" {
+		return kval{c: c}
+	}
+	return kval{term: kLit(c), ty: t, c: c}
+}
+
+// constant folding; ok=false when the operator is not a constant operator of the fragment
+func kFold(op token.Token, l, r *big.Int) (*big.Int, bool) {
+	c := new(big.Int)
+	switch op {
+	case token.ADD:
+		c.Add(l, r)
+	case token.SUB:
+		c.Sub(l, r)
+	case token.MUL:
+		c.Mul(l, r)
+	case token.AND:
+		c.And(l, r)
+	case token.OR:
+		c.Or(l, r)
+	default:
+		return nil, false
+	}
+	return c, true
+}
+
+// ---- constants -----------------------------------------------------------------------------
+
+func (b *kbuild) constVal(name string, at ast.Node) (kval, error) {
+	kc := b.consts[name]
+	switch kc.state {
+	case 2:
+		return kc.v, nil
+	case 1:
+		return kval{}, fmt.Errorf("%s: constant %s is defined in terms of itself", b.pos(at), name)
+	}
+	kc.state = 1
+	defer func() {
+		if kc.state == 1 {
+			kc.state = 0
+		}
+	}()
+	v, err := b.constSpec(kc.spec, kc.pos, &kframe{b: b, vars: map[string]*kvar{}, lconsts: map[string]kval{}})
+	if err != nil {
+		return kval{}, err
+	}
+	kc.v, kc.state = v, 2
+	return v, nil
+}
+
+// constSpec evaluates the pos-th constant of a const spec in frame f
+func (b *kbuild) constSpec(spec *ast.ValueSpec, pos int, f *kframe) (kval, error) {
+	name := spec.Names[pos].Name
+	if len(spec.Values) != len(spec.Names) {
+		return kval{}, fmt.Errorf("%s: constant %s has no value of its own (implicit repetition / iota): unsupported", b.pos(spec), name)
+	}
+	v, err := f.intExpr(spec.Values[pos])
+	if err != nil {
+		return kval{}, err
+	}
+	if v.c == nil {
+		return kval{}, fmt.Errorf("%s: value of constant %s is not a constant of the fragment", b.pos(spec), name)
+	}
+	if spec.Type != nil {
+		t, ok := b.typeNames[kTypeString(spec.Type)]
+		if !ok {
+			return kval{}, fmt.Errorf("%s: constant %s has unsupported type %s", b.pos(spec), name, kTypeString(spec.Type))
+		}
+		if v.ty == "" {
+			if v, err = b.asTyped(v, t, spec); err != nil {
+				return kval{}, err
+			}
+		} else if v.ty != t {
+			return kval{}, fmt.Errorf("%s: constant %s: value of type %s declared as %s", b.pos(spec), name, v.ty, t)
+		}
+	}
+	return v, nil
+}
+
+// ---- expressions ---------------------------------------------------------------------------
+
+func (f *kframe) intExpr(x ast.Expr) (kval, error) {
+	v, err := f.expr(x)
+	if err != nil {
+		return kval{}, err
+	}
+	if v.kind != vInt {
+		return kval{}, fmt.Errorf("%s: an integer expression is required here", f.b.pos(x))
+	}
+	return v.i, nil
+}
+
+func kInt(v kval) kvalue { return kvalue{kind: vInt, i: v} }
+
+// expr evaluates a single-valued expression
+func (f *kframe) expr(x ast.Expr) (kvalue, error) {
+	b := f.b
 	switch n := x.(type) {
 	case *ast.ParenExpr:
-		return e.expr(n.X)
+		return f.expr(n.X)
 	case *ast.BasicLit:
 		if n.Kind != token.INT {
-			return kval{}, fmt.Errorf("%s: literal %s is not an integer", e.pos(n), n.Value)
+			return kvalue{}, fmt.Errorf("%s: literal %s is not an integer", b.pos(n), n.Value)
 		}
 		c, ok := new(big.Int).SetString(strings.ReplaceAll(n.Value, "_", ""), 0)
 		if !ok {
-			return kval{}, fmt.Errorf("%s: cannot read integer literal %s", e.pos(n), n.Value)
+			return kvalue{}, fmt.Errorf("%s: cannot read integer literal %s", b.pos(n), n.Value)
 		}
-		return kval{c: c}, nil
+		return kInt(kval{c: c}), nil
 	case *ast.Ident:
-		t, ok := e.vars[n.Name]
-		if !ok {
-			return kval{}, fmt.Errorf("%s: unknown identifier %s", e.pos(n), n.Name)
+		if v, ok := f.lconsts[n.Name]; ok {
+			return kInt(v), nil
 		}
-		return kval{term: n.Name, ty: t}, nil
+		if v, ok := f.vars[n.Name]; ok {
+			return v.val, nil
+		}
+		if _, ok := b.consts[n.Name]; ok {
+			v, err := b.constVal(n.Name, n)
+			return kInt(v), err
+		}
+		return kvalue{}, fmt.Errorf("%s: unknown identifier %s", b.pos(n), n.Name)
 	case *ast.SelectorExpr:
-		if id, ok := n.X.(*ast.Ident); ok && e.recParams[id.Name] {
-			switch n.Sel.Name {
-			case "Offset": // kgo.Record.Offset int64
-				return kval{term: id.Name + "_Offset", ty: kI64}, nil
-			case "LeaderEpoch": // kgo.Record.LeaderEpoch int32
-				return kval{term: id.Name + "_" + n.Sel.Name, ty: kI32}, nil
-			}
-		}
-		return kval{}, fmt.Errorf("%s: unsupported selector %s", e.pos(n), kTypeString(n))
-	case *ast.UnaryExpr:
-		v, err := e.expr(n.X)
-		if err != nil {
-			return v, err
-		}
-		if n.Op == token.SUB && v.ty == "" {
-			return kval{c: new(big.Int).Neg(v.c)}, nil
-		}
-		if n.Op == token.ADD {
-			return v, nil
-		}
-		return kval{}, fmt.Errorf("%s: unsupported unary operator %s", e.pos(n), n.Op)
-	case *ast.CallExpr:
-		t, ok := e.typeNames[kTypeString(n.Fun)]
-		if !ok || len(n.Args) != 1 {
-			return kval{}, fmt.Errorf("%s: only integer conversions are supported, got call of %s", e.pos(n), kTypeString(n.Fun))
-		}
-		v, err := e.expr(n.Args[0])
-		if err != nil {
-			return v, err
-		}
-		if v.ty == "" {
-			return e.asTyped(v, t, n)
-		}
-		return kval{term: fmt.Sprintf("(go_conv %s %s)", t, v.term), ty: t}, nil
-	case *ast.BinaryExpr:
-		l, err := e.expr(n.X)
-		if err != nil {
-			return l, err
-		}
-		r, err := e.expr(n.Y)
-		if err != nil {
-			return r, err
-		}
-		if n.Op == token.SHL || n.Op == token.SHR {
-			if r.ty != "" || r.c.Sign() < 0 || !r.c.IsInt64() || r.c.Int64() > 1024 {
-				return kval{}, fmt.Errorf("%s: shift count must be a small non-negative constant", e.pos(n))
-			}
-			if l.ty == "" { // constant shift
-				c := new(big.Int)
-				if n.Op == token.SHL {
-					c.Lsh(l.c, uint(r.c.Int64()))
-				} else {
-					c.Rsh(l.c, uint(r.c.Int64()))
+		if id, ok := n.X.(*ast.Ident); ok {
+			if v, ok := f.vars[id.Name]; ok {
+				switch v.val.kind {
+				case vRecord:
+					switch n.Sel.Name {
+					case "Offset": // kgo.Record.Offset int64
+						return kInt(kval{term: v.val.prefix + "_Offset", ty: kI64}), nil
+					case "LeaderEpoch": // kgo.Record.LeaderEpoch int32
+						return kInt(kval{term: v.val.prefix + "_LeaderEpoch", ty: kI32}), nil
+					}
+				case vEvent:
+					switch n.Sel.Name {
+					case "SourceID": // pipeline.Event.SourceID pipeline.SourceID
+						return kInt(kval{term: v.val.prefix + "_SourceID", ty: kU64}), nil
+					case "Offset": // pipeline.Event.Offset int64
+						return kInt(kval{term: v.val.prefix + "_Offset", ty: kI64}), nil
+					}
+				case vEO:
+					switch n.Sel.Name {
+					case "Offset": // kgo.EpochOffset.Offset int64
+						return kInt(kval{term: v.val.off, ty: kI64}), nil
+					case "Epoch": // kgo.EpochOffset.Epoch int32
+						return kInt(kval{term: v.val.epoch, ty: kI32}), nil
+					}
 				}
-				return kval{c: c}, nil
 			}
-			op := "go_shl"
-			if n.Op == token.SHR {
-				op = "go_shr"
-			}
-			return kval{term: fmt.Sprintf("(%s %s %s %s)", op, l.ty, l.term, kLit(r.c)), ty: l.ty}, nil
 		}
-		var op string
+		return kvalue{}, fmt.Errorf("%s: unsupported selector %s", b.pos(n), kCallName(n))
+	case *ast.IndexExpr:
+		if f.recv != "" && kCallName(n.X) == f.recv+".config.Topics" && f.isRecv(f.recv) {
+			iv, err := f.intExpr(n.Index)
+			if err != nil {
+				return kvalue{}, err
+			}
+			if iv, err = b.asTyped(iv, kI64, n.Index); err != nil { // a slice index of another integer type is legal Go but not in the fragment
+				return kvalue{}, err
+			}
+			return kvalue{kind: vTopic, idx: iv.term}, nil
+		}
+		return kvalue{}, fmt.Errorf("%s: unsupported index expression %s[...]", b.pos(n), kCallName(n.X))
+	case *ast.CompositeLit:
+		if n.Type == nil {
+			return kvalue{}, fmt.Errorf("%s: composite literal without a type", b.pos(n))
+		}
+		return f.composite(n, kTypeString(n.Type))
+	case *ast.UnaryExpr:
+		v, err := f.intExpr(n.X)
+		if err != nil {
+			return kvalue{}, err
+		}
 		switch n.Op {
 		case token.ADD:
-			op = "go_add"
+			return kInt(v), nil
 		case token.SUB:
-			op = "go_sub"
-		case token.AND:
-			op = "go_and"
-		case token.OR:
-			op = "go_or"
-		default:
-			return kval{}, fmt.Errorf("%s: unsupported operator %s", e.pos(n), n.Op)
-		}
-		if l.ty == "" && r.ty == "" {
-			c := new(big.Int)
-			switch n.Op {
-			case token.ADD:
-				c.Add(l.c, r.c)
-			case token.SUB:
-				c.Sub(l.c, r.c)
-			case token.AND:
-				c.And(l.c, r.c)
-			case token.OR:
-				c.Or(l.c, r.c)
+			if v.c != nil {
+				c := new(big.Int).Neg(v.c)
+				if v.ty != "" && !kFits(c, v.ty) {
+					return kvalue{}, fmt.Errorf("%s: constant %s overflows %s", b.pos(n), c, v.ty)
+				}
+				return kInt(kConstVal(c, v.ty)), nil
 			}
-			return kval{c: c}, nil
+			return kInt(kval{term: fmt.Sprintf("(go_sub %s 0 %s)", v.ty, v.term), ty: v.ty}), nil
 		}
-		t := l.ty
-		if t == "" {
-			t = r.ty
+		return kvalue{}, fmt.Errorf("%s: unsupported unary operator %s", b.pos(n), n.Op)
+	case *ast.CallExpr:
+		vs, err := f.call(n)
+		if err != nil {
+			return kvalue{}, err
 		}
-		if l, err = e.asTyped(l, t, n); err != nil {
+		if len(vs) != 1 {
+			return kvalue{}, fmt.Errorf("%s: call yields %d values where one is required", b.pos(n), len(vs))
+		}
+		return vs[0], nil
+	case *ast.BinaryExpr:
+		l, err := f.intExpr(n.X)
+		if err != nil {
+			return kvalue{}, err
+		}
+		r, err := f.intExpr(n.Y)
+		if err != nil {
+			return kvalue{}, err
+		}
+		v, err := f.binary(n, n.Op, l, r)
+		return kInt(v), err
+	}
+	return kvalue{}, fmt.Errorf("%s: unsupported expression %T", b.pos(x), x)
+}
+
+func (f *kframe) isRecv(name string) bool {
+	v, ok := f.vars[name]
+	return ok && v.val.kind == vRecv
+}
+
+func (f *kframe) binary(at ast.Node, op token.Token, l, r kval) (kval, error) {
+	b := f.b
+	if op == token.SHL || op == token.SHR {
+		if r.c == nil || r.c.Sign() < 0 || !r.c.IsInt64() || r.c.Int64() > 1024 {
+			return kval{}, fmt.Errorf("%s: shift count must be a small non-negative constant", b.pos(at))
+		}
+		k := uint(r.c.Int64())
+		if l.c != nil { // constant shift
+			c := new(big.Int)
+			if op == token.SHL {
+				c.Lsh(l.c, k)
+			} else {
+				c.Rsh(l.c, k)
+			}
+			if l.ty != "" && !kFits(c, l.ty) {
+				return kval{}, fmt.Errorf("%s: constant %s overflows %s", b.pos(at), c, l.ty)
+			}
+			return kConstVal(c, l.ty), nil
+		}
+		name := "go_shl"
+		if op == token.SHR {
+			name = "go_shr"
+		}
+		return kval{term: fmt.Sprintf("(%s %s %s %s)", name, l.ty, l.term, kLit(r.c)), ty: l.ty}, nil
+	}
+	var name string
+	switch op {
+	case token.ADD:
+		name = "go_add"
+	case token.SUB:
+		name = "go_sub"
+	case token.MUL:
+		name = "go_mul"
+	case token.AND:
+		name = "go_and"
+	case token.OR:
+		name = "go_or"
+	default:
+		return kval{}, fmt.Errorf("%s: unsupported operator %s", b.pos(at), op)
+	}
+	t := l.ty
+	if t == "" {
+		t = r.ty
+	}
+	var err error
+	if t != "" {
+		if l, err = b.asTyped(l, t, at); err != nil {
 			return l, err
 		}
-		if r, err = e.asTyped(r, t, n); err != nil {
+		if r, err = b.asTyped(r, t, at); err != nil {
 			return r, err
 		}
-		return kval{term: fmt.Sprintf("(%s %s %s %s)", op, t, l.term, r.term), ty: t}, nil
 	}
-	return kval{}, fmt.Errorf("%s: unsupported expression %T", e.pos(x), x)
+	if l.c != nil && r.c != nil { // constant expression: exact value (Go rejects an overflowing typed constant)
+		c, _ := kFold(op, l.c, r.c)
+		if t != "" && !kFits(c, t) {
+			return kval{}, fmt.Errorf("%s: constant %s overflows %s", b.pos(at), c, t)
+		}
+		return kConstVal(c, t), nil
+	}
+	return kval{term: fmt.Sprintf("(%s %s %s %s)", name, t, l.term, r.term), ty: t}, nil
 }
 
-type kparam struct {
-	name string
-	ty   kty
-}
-
-// kFunc translates one packing function. Returns the Coq definition text.
-func kFunc(fset *token.FileSet, fd *ast.FuncDecl, typeNames map[string]kty) (string, error) {
-	env := &kenv{vars: map[string]kty{}, recParams: map[string]bool{}, typeNames: typeNames, fset: fset}
-	var coqParams []string
-	for _, f := range fd.Type.Params.List {
-		ts := kTypeString(f.Type)
-		for _, nm := range f.Names {
-			if ts == "*kgo.Record" {
-				env.recParams[nm.Name] = true
-				coqParams = append(coqParams, nm.Name+"_Offset", nm.Name+"_LeaderEpoch")
-				continue
-			}
-			t, ok := typeNames[ts]
+// composite literals: kgo.EpochOffset{F: e, ...} and the two map types
+func (f *kframe) composite(cl *ast.CompositeLit, ts string) (kvalue, error) {
+	b := f.b
+	switch ts {
+	case kTyEO:
+		fields := map[string]string{}
+		for _, el := range cl.Elts {
+			kv, ok := el.(*ast.KeyValueExpr)
 			if !ok {
-				return "", fmt.Errorf("%s: parameter %s has unsupported type %s", fd.Name.Name, nm.Name, ts)
+				return kvalue{}, fmt.Errorf("%s: EpochOffset literal must use field names", b.pos(el))
 			}
-			env.vars[nm.Name] = t
-			coqParams = append(coqParams, nm.Name)
-		}
-	}
-	// results: either unnamed (types only) or named (zero-initialised variables)
-	var resTypes []string // rendered Go types
-	var named []kparam
-	if fd.Type.Results == nil {
-		return "", fmt.Errorf("%s: no result", fd.Name.Name)
-	}
-	for _, f := range fd.Type.Results.List {
-		ts := kTypeString(f.Type)
-		if len(f.Names) == 0 {
-			resTypes = append(resTypes, ts)
-		}
-		for _, nm := range f.Names {
-			t, ok := typeNames[ts]
-			if !ok {
-				return "", fmt.Errorf("%s: named result %s has unsupported type %s", fd.Name.Name, nm.Name, ts)
+			key, _ := kv.Key.(*ast.Ident)
+			if key == nil {
+				return kvalue{}, fmt.Errorf("%s: bad field key", b.pos(kv))
 			}
-			resTypes = append(resTypes, ts)
-			named = append(named, kparam{nm.Name, t})
-		}
-	}
-	var lets []string
-	for _, r := range named {
-		env.vars[r.name] = r.ty
-		lets = append(lets, fmt.Sprintf("  let %s := 0 in", r.name))
-	}
-	var result []string
-	returned := false
-	for i, st := range fd.Body.List {
-		if returned {
-			return "", fmt.Errorf("%s: statement after return", env.pos(st))
-		}
-		switch s := st.(type) {
-		case *ast.AssignStmt:
-			if len(s.Lhs) != 1 || len(s.Rhs) != 1 || (s.Tok != token.DEFINE && s.Tok != token.ASSIGN) {
-				return "", fmt.Errorf("%s: unsupported assignment", env.pos(s))
+			want := map[string]kty{"Offset": kI64, "Epoch": kI32}[key.Name]
+			if want == "" {
+				return kvalue{}, fmt.Errorf("%s: unknown EpochOffset field %s", b.pos(kv), key.Name)
 			}
-			id, ok := s.Lhs[0].(*ast.Ident)
-			if !ok {
-				return "", fmt.Errorf("%s: assignment target is not an identifier", env.pos(s))
+			if _, dup := fields[key.Name]; dup {
+				return kvalue{}, fmt.Errorf("%s: duplicate field %s", b.pos(kv), key.Name)
 			}
-			v, err := env.expr(s.Rhs[0])
+			v, err := f.intExpr(kv.Value)
 			if err != nil {
-				return "", err
+				return kvalue{}, err
 			}
-			if s.Tok == token.ASSIGN {
-				t, ok := env.vars[id.Name]
-				if !ok {
-					return "", fmt.Errorf("%s: assignment to undeclared %s", env.pos(s), id.Name)
-				}
-				if v, err = env.asTyped(v, t, s); err != nil {
-					return "", err
-				}
+			if v, err = b.asTyped(v, want, kv); err != nil {
+				return kvalue{}, err
+			}
+			fields[key.Name] = v.term
+		}
+		for _, fl := range []string{"Offset", "Epoch"} { // omitted field = zero value
+			if _, ok := fields[fl]; !ok {
+				fields[fl] = "0"
+			}
+		}
+		return kvalue{kind: vEO, off: fields["Offset"], epoch: fields["Epoch"]}, nil
+	case kTyInner, kTyOuter:
+		m := &kmap{ty: ts}
+		kt, et := kMapTypes(ts)
+		for _, el := range cl.Elts {
+			kv, ok := el.(*ast.KeyValueExpr)
+			if !ok {
+				return kvalue{}, fmt.Errorf("%s: map literal entry without a key", b.pos(el))
+			}
+			k, err := f.expr(kv.Key)
+			if err != nil {
+				return kvalue{}, err
+			}
+			if k, err = f.conform(k, kt, kv.Key); err != nil {
+				return kvalue{}, err
+			}
+			var v kvalue
+			if inner, ok := kv.Value.(*ast.CompositeLit); ok && inner.Type == nil { // elided element type
+				v, err = f.composite(inner, et)
 			} else {
-				if v.ty == "" { // x := const has type int
-					if v, err = env.asTyped(v, kI64, s); err != nil {
-						return "", err
-					}
-				}
-				env.vars[id.Name] = v.ty
+				v, err = f.expr(kv.Value)
 			}
-			lets = append(lets, fmt.Sprintf("  let %s := %s in", id.Name, v.term))
-		case *ast.ReturnStmt:
-			returned = true
-			if i != len(fd.Body.List)-1 {
-				return "", fmt.Errorf("%s: return is not the last statement", env.pos(s))
+			if err != nil {
+				return kvalue{}, err
 			}
-			if len(s.Results) == 0 {
-				if len(named) == 0 {
-					return "", fmt.Errorf("%s: bare return without named results", env.pos(s))
-				}
-				for _, r := range named {
-					result = append(result, r.name)
-				}
-				break
+			if v, err = f.conform(v, et, kv.Value); err != nil {
+				return kvalue{}, err
 			}
-			if len(s.Results) != len(resTypes) {
-				return "", fmt.Errorf("%s: wrong number of results", env.pos(s))
-			}
-			for k, rx := range s.Results {
-				if resTypes[k] == "kgo.EpochOffset" {
-					cl, ok := rx.(*ast.CompositeLit)
-					if !ok || kTypeString(cl.Type) != "kgo.EpochOffset" {
-						return "", fmt.Errorf("%s: expected a kgo.EpochOffset{...} literal", env.pos(rx))
-					}
-					fields := map[string]string{}
-					for _, el := range cl.Elts {
-						kv, ok := el.(*ast.KeyValueExpr)
-						if !ok {
-							return "", fmt.Errorf("%s: EpochOffset literal must use field names", env.pos(el))
-						}
-						key, _ := kv.Key.(*ast.Ident)
-						if key == nil {
-							return "", fmt.Errorf("%s: bad field key", env.pos(kv))
-						}
-						want := map[string]kty{"Offset": kI64, "Epoch": kI32}[key.Name]
-						if want == "" {
-							return "", fmt.Errorf("%s: unknown EpochOffset field %s", env.pos(kv), key.Name)
-						}
-						v, err := env.expr(kv.Value)
-						if err != nil {
-							return "", err
-						}
-						if v, err = env.asTyped(v, want, kv); err != nil {
-							return "", err
-						}
-						fields[key.Name] = v.term
-					}
-					for _, f := range []string{"Offset", "Epoch"} { // omitted field = zero value
-						if _, ok := fields[f]; !ok {
-							fields[f] = "0"
-						}
-					}
-					result = append(result, fields["Offset"], fields["Epoch"])
-					continue
-				}
-				t, ok := typeNames[resTypes[k]]
-				if !ok {
-					return "", fmt.Errorf("%s: unsupported result type %s", env.pos(rx), resTypes[k])
-				}
-				v, err := env.expr(rx)
-				if err != nil {
-					return "", err
-				}
-				if v, err = env.asTyped(v, t, rx); err != nil {
-					return "", err
-				}
-				result = append(result, v.term)
-			}
-		default:
-			return "", fmt.Errorf("%s: unsupported statement %T", env.pos(st), st)
+			m.store(k, v)
+		}
+		return kvalue{kind: vMap, m: m}, nil
+	}
+	return kvalue{}, fmt.Errorf("%s: unsupported composite literal of type %s", b.pos(cl), ts)
+}
+
+func kMapTypes(ts string) (key, elem string) {
+	if ts == kTyOuter {
+		return kTyString, kTyInner
+	}
+	return "int32", kTyEO
+}
+
+func kSameKey(a, b kvalue) bool {
+	if a.kind != b.kind {
+		return false
+	}
+	if a.kind == vTopic {
+		return a.idx == b.idx
+	}
+	return a.i.term == b.i.term
+}
+
+// store: m[k] = v. Keys are compared as terms (all names are SSA, so equal terms are equal values);
+// keys with different terms are kept apart — whether they collide at run time is not decided here,
+// the caller accepts only maps with exactly one entry.
+func (m *kmap) store(k, v kvalue) {
+	for i := range m.entries {
+		if kSameKey(m.entries[i].key, k) {
+			m.entries[i].val = v
+			return
 		}
 	}
-	if !returned {
-		return "", fmt.Errorf("%s: no return statement", fd.Name.Name)
-	}
-	retTy := "Z"
-	if len(result) == 2 {
-		retTy = "Z * Z"
-	} else if len(result) != 1 {
-		return "", fmt.Errorf("%s: %d result components", fd.Name.Name, len(result))
-	}
-	body := strings.Join(lets, "\n")
-	if body != "" {
-		body += "\n"
-	}
-	res := result[0]
-	if len(result) == 2 {
-		res = "(" + result[0] + ", " + result[1] + ")"
-	}
-	return fmt.Sprintf("Definition gen_%s (%s : Z) : %s :=\n%s  %s.\n", fd.Name.Name, strings.Join(coqParams, " "), retTy, body, res), nil
+	m.entries = append(m.entries, kentry{k, v})
 }
+
+// conform checks v against the declared Go type ts (untyped constants get the type)
+func (f *kframe) conform(v kvalue, ts string, at ast.Node) (kvalue, error) {
+	b := f.b
+	bad := func(what string) (kvalue, error) {
+		return kvalue{}, fmt.Errorf("%s: %s required", b.pos(at), what)
+	}
+	if t, ok := b.typeNames[ts]; ok {
+		if v.kind != vInt {
+			return bad("a value of type " + ts)
+		}
+		iv, err := b.asTyped(v.i, t, at)
+		return kInt(iv), err
+	}
+	switch ts {
+	case kTyEO:
+		if v.kind != vEO {
+			return bad("a kgo.EpochOffset")
+		}
+	case kTyString:
+		if v.kind != vTopic {
+			return bad("a string of the form " + f.recv + ".config.Topics[i] (the only strings of the fragment)")
+		}
+	case kTyInner, kTyOuter:
+		if v.kind != vMap || v.m.ty != ts {
+			return bad("a " + ts)
+		}
+	case kTyEvent:
+		if v.kind != vEvent {
+			return bad("the *pipeline.Event")
+		}
+	case kTyRecord:
+		if v.kind != vRecord {
+			return bad("the *kgo.Record")
+		}
+	default:
+		return kvalue{}, fmt.Errorf("%s: unsupported type %s", b.pos(at), ts)
+	}
+	return v, nil
+}
+
+// zero value of a declared type
+func (f *kframe) zero(ts string, at ast.Node) (kvalue, error) {
+	if t, ok := f.b.typeNames[ts]; ok {
+		return kInt(kval{term: "0", ty: t}), nil
+	}
+	if ts == kTyEO {
+		return kvalue{kind: vEO, off: "0", epoch: "0"}, nil
+	}
+	return kvalue{}, fmt.Errorf("%s: zero value of type %s is not in the fragment", f.b.pos(at), ts)
+}
+
+// bind gives the value of Go variable `name` (or field path) fresh Gallina names
+func (f *kframe) bind(name string, v kvalue, at ast.Node) (kvalue, error) {
+	b := f.b
+	switch v.kind {
+	case vInt:
+		if v.i.ty == "" {
+			return v, fmt.Errorf("%s: internal: untyped value bound to %s", b.pos(at), name)
+		}
+		n := b.fresh(f.prefix + name)
+		b.let(n, v.i.term)
+		return kInt(kval{term: n, ty: v.i.ty}), nil // a variable is not a constant
+	case vEO:
+		no, ne := b.fresh(f.prefix+name+"_Offset"), b.fresh(f.prefix+name+"_Epoch")
+		b.let(no, v.off)
+		b.let(ne, v.epoch)
+		return kvalue{kind: vEO, off: no, epoch: ne}, nil
+	case vTopic:
+		n := b.fresh(f.prefix + name)
+		b.let(n, v.idx)
+		return kvalue{kind: vTopic, idx: n}, nil
+	}
+	return v, nil // maps, the event, the record, the receiver: references
+}
+
+// ---- calls ---------------------------------------------------------------------------------
 
 func kCallName(x ast.Expr) string { // p.client.MarkCommitOffsets -> "p.client.MarkCommitOffsets"
 	switch t := x.(type) {
@@ -415,111 +713,696 @@ func kCallName(x ast.Expr) string { // p.client.MarkCommitOffsets -> "p.client.M
 	return "?"
 }
 
-// kCommit recognises the exact data flow of Plugin.Commit.
-func kCommit(fset *token.FileSet, fd *ast.FuncDecl) (string, error) {
-	bad := func(i int, why string) (string, error) {
-		p := fset.Position(fd.Pos())
-		if i < len(fd.Body.List) {
-			p = fset.Position(fd.Body.List[i].Pos())
+func (f *kframe) shadowed(name string) bool {
+	if _, ok := f.vars[name]; ok {
+		return true
+	}
+	_, ok := f.lconsts[name]
+	return ok
+}
+
+func (f *kframe) call(n *ast.CallExpr) ([]kvalue, error) {
+	b := f.b
+	if n.Ellipsis.IsValid() {
+		return nil, fmt.Errorf("%s: variadic call", b.pos(n))
+	}
+	fn := kTypeString(n.Fun)
+	// conversion T(x)
+	if t, ok := b.typeNames[fn]; ok && !f.shadowed(fn) {
+		if len(n.Args) != 1 {
+			return nil, fmt.Errorf("%s: conversion to %s takes one operand", b.pos(n), fn)
 		}
-		return "", fmt.Errorf("%s: Commit no longer has the recognised shape: %s", p, why)
-	}
-	if fd.Type.Params == nil || len(fd.Type.Params.List) != 1 || len(fd.Type.Params.List[0].Names) != 1 {
-		return bad(0, "one parameter expected")
-	}
-	ev := fd.Type.Params.List[0].Names[0].Name
-	recv := fd.Recv.List[0].Names[0].Name
-	if len(fd.Body.List) != 4 {
-		return bad(0, fmt.Sprintf("%d statements instead of 4", len(fd.Body.List)))
-	}
-	// 1: a, b := disassembleSourceID(event.SourceID)
-	s1, ok := fd.Body.List[0].(*ast.AssignStmt)
-	if !ok || s1.Tok != token.DEFINE || len(s1.Lhs) != 2 || len(s1.Rhs) != 1 {
-		return bad(0, "statement 1")
-	}
-	c1, ok := s1.Rhs[0].(*ast.CallExpr)
-	if !ok || kCallName(c1.Fun) != "disassembleSourceID" || len(c1.Args) != 1 || kCallName(c1.Args[0]) != ev+".SourceID" {
-		return bad(0, "statement 1 is not disassembleSourceID(event.SourceID)")
-	}
-	vIndex, vPart := kCallName(s1.Lhs[0]), kCallName(s1.Lhs[1])
-	// 2: o := disassembleOffset(event.Offset)
-	s2, ok := fd.Body.List[1].(*ast.AssignStmt)
-	if !ok || s2.Tok != token.DEFINE || len(s2.Lhs) != 1 || len(s2.Rhs) != 1 {
-		return bad(1, "statement 2")
-	}
-	c2, ok := s2.Rhs[0].(*ast.CallExpr)
-	if !ok || kCallName(c2.Fun) != "disassembleOffset" || len(c2.Args) != 1 || kCallName(c2.Args[0]) != ev+".Offset" {
-		return bad(1, "statement 2 is not disassembleOffset(event.Offset)")
-	}
-	vOff := kCallName(s2.Lhs[0])
-	// 3: m := map[string]map[int32]kgo.EpochOffset{ p.config.Topics[index]: {partition: offset} }
-	s3, ok := fd.Body.List[2].(*ast.AssignStmt)
-	if !ok || s3.Tok != token.DEFINE || len(s3.Lhs) != 1 || len(s3.Rhs) != 1 {
-		return bad(2, "statement 3")
-	}
-	vMap := kCallName(s3.Lhs[0])
-	cl, ok := s3.Rhs[0].(*ast.CompositeLit)
-	if !ok || len(cl.Elts) != 1 {
-		return bad(2, "statement 3 is not a one-entry map literal")
-	}
-	if _, ok := cl.Type.(*ast.MapType); !ok {
-		return bad(2, "statement 3 is not a map literal")
-	}
-	kv, ok := cl.Elts[0].(*ast.KeyValueExpr)
-	if !ok {
-		return bad(2, "map entry")
-	}
-	ix, ok := kv.Key.(*ast.IndexExpr)
-	if !ok || kCallName(ix.X) != recv+".config.Topics" {
-		return bad(2, "outer key is not p.config.Topics[...]")
-	}
-	inner, ok := kv.Value.(*ast.CompositeLit)
-	if !ok || len(inner.Elts) != 1 {
-		return bad(2, "inner map literal")
-	}
-	kv2, ok := inner.Elts[0].(*ast.KeyValueExpr)
-	if !ok {
-		return bad(2, "inner map entry")
-	}
-	kIndex, kPart, kOff := kCallName(ix.Index), kCallName(kv2.Key), kCallName(kv2.Value)
-	// 4: p.client.MarkCommitOffsets(m)
-	s4, ok := fd.Body.List[3].(*ast.ExprStmt)
-	if !ok {
-		return bad(3, "statement 4")
-	}
-	c4, ok := s4.X.(*ast.CallExpr)
-	if !ok || kCallName(c4.Fun) != recv+".client.MarkCommitOffsets" || len(c4.Args) != 1 || kCallName(c4.Args[0]) != vMap {
-		return bad(3, "statement 4 is not p.client.MarkCommitOffsets(<the map>)")
-	}
-	// the three roles must be filled by the variables of statements 1 and 2 (in any assignment)
-	role := func(v string) (string, error) {
-		switch v {
-		case vIndex:
-			return "sid_fst", nil
-		case vPart:
-			return "sid_snd", nil
+		v, err := f.intExpr(n.Args[0])
+		if err != nil {
+			return nil, err
 		}
-		return "", fmt.Errorf("Commit: %s is not a result of disassembleSourceID", v)
+		if v.c != nil { // constant conversion: the constant must be representable (Go)
+			if !kFits(v.c, t) {
+				return nil, fmt.Errorf("%s: constant %s overflows %s", b.pos(n), v.c, t)
+			}
+			return []kvalue{kInt(kConstVal(v.c, t))}, nil
+		}
+		return []kvalue{kInt(kval{term: fmt.Sprintf("(go_conv %s %s)", t, v.term), ty: t})}, nil
 	}
-	rIndex, err := role(kIndex)
+	if id, ok := n.Fun.(*ast.Ident); ok && !f.shadowed(id.Name) {
+		switch {
+		case id.Name == "make":
+			if len(n.Args) < 1 || len(n.Args) > 2 {
+				return nil, fmt.Errorf("%s: unsupported make", b.pos(n))
+			}
+			ts := kTypeString(n.Args[0])
+			if ts != kTyInner && ts != kTyOuter {
+				return nil, fmt.Errorf("%s: make of unsupported type %s", b.pos(n), ts)
+			}
+			if len(n.Args) == 2 { // size hint: any integer expression of the fragment, no effect on the contents
+				if _, err := f.intExpr(n.Args[1]); err != nil {
+					return nil, err
+				}
+			}
+			return []kvalue{{kind: vMap, m: &kmap{ty: ts}}}, nil
+		case b.gen[id.Name]:
+			return f.callGen(b.funcs[id.Name], n)
+		case b.funcs[id.Name] != nil:
+			return f.inline(b.funcs[id.Name], "", n)
+		}
+	}
+	if sel, ok := n.Fun.(*ast.SelectorExpr); ok {
+		if id, ok := sel.X.(*ast.Ident); ok && f.isRecv(id.Name) && b.methods[sel.Sel.Name] != nil {
+			if sel.Sel.Name == "Commit" {
+				return nil, fmt.Errorf("%s: call of Commit", b.pos(n))
+			}
+			return f.inline(b.methods[sel.Sel.Name], id.Name, n)
+		}
+	}
+	return nil, fmt.Errorf("%s: unsupported call of %s", b.pos(n), kCallName(n.Fun))
+}
+
+type kparam struct {
+	name string
+	ts   string
+}
+
+func kParams(fl *ast.FieldList) (ps []kparam, named bool) {
+	if fl == nil {
+		return nil, false
+	}
+	for _, fld := range fl.List {
+		ts := kTypeString(fld.Type)
+		if len(fld.Names) == 0 {
+			ps = append(ps, kparam{"", ts})
+		}
+		for _, nm := range fld.Names {
+			ps = append(ps, kparam{nm.Name, ts})
+			named = true
+		}
+	}
+	return ps, named
+}
+
+func (f *kframe) args(n *ast.CallExpr, params []kparam, callee string) ([]kvalue, error) {
+	b := f.b
+	if len(n.Args) != len(params) {
+		return nil, fmt.Errorf("%s: %s takes %d arguments", b.pos(n), callee, len(params))
+	}
+	var out []kvalue
+	for i, a := range n.Args {
+		v, err := f.expr(a)
+		if err != nil {
+			return nil, err
+		}
+		if v, err = f.conform(v, params[i].ts, a); err != nil {
+			return nil, err
+		}
+		out = append(out, v)
+	}
+	return out, nil
+}
+
+// callGen: a call of one of the four packing functions becomes a reference to its gen_ definition
+func (f *kframe) callGen(fd *ast.FuncDecl, n *ast.CallExpr) ([]kvalue, error) {
+	b := f.b
+	params, _ := kParams(fd.Type.Params)
+	args, err := f.args(n, params, fd.Name.Name)
+	if err != nil {
+		return nil, err
+	}
+	term := "(gen_" + fd.Name.Name
+	for _, a := range args {
+		switch a.kind {
+		case vInt:
+			term += " " + a.i.term
+		case vRecord:
+			term += " " + a.prefix + "_Offset " + a.prefix + "_LeaderEpoch"
+		default:
+			return nil, fmt.Errorf("%s: unsupported argument kind for %s", b.pos(n), fd.Name.Name)
+		}
+	}
+	term += ")"
+	r := b.fresh(f.prefix + fd.Name.Name + "_res")
+	b.let(r, term)
+	results, _ := kParams(fd.Type.Results)
+	comps := 0
+	for _, rp := range results {
+		if rp.ts == kTyEO {
+			comps += 2
+		} else if _, ok := b.typeNames[rp.ts]; ok {
+			comps++
+		} else {
+			return nil, fmt.Errorf("%s: unsupported result type %s of %s", b.pos(n), rp.ts, fd.Name.Name)
+		}
+	}
+	var cterms []string
+	switch comps {
+	case 1:
+		cterms = []string{r}
+	case 2:
+		cterms = []string{"(fst " + r + ")", "(snd " + r + ")"}
+	default:
+		return nil, fmt.Errorf("%s: %s has %d result components", b.pos(n), fd.Name.Name, comps)
+	}
+	var out []kvalue
+	k := 0
+	for _, rp := range results {
+		if rp.ts == kTyEO {
+			out = append(out, kvalue{kind: vEO, off: cterms[k], epoch: cterms[k+1]})
+			k += 2
+		} else {
+			out = append(out, kInt(kval{term: cterms[k], ty: b.typeNames[rp.ts]}))
+			k++
+		}
+	}
+	return out, nil
+}
+
+// inline executes the body of a helper function / method of *Plugin in a new frame
+func (f *kframe) inline(fd *ast.FuncDecl, recvArg string, n *ast.CallExpr) ([]kvalue, error) {
+	b := f.b
+	name := fd.Name.Name
+	for _, s := range b.stack {
+		if s == name {
+			return nil, fmt.Errorf("%s: recursive call of %s", b.pos(n), name)
+		}
+	}
+	if len(b.stack) > 8 {
+		return nil, fmt.Errorf("%s: helper calls nested too deeply", b.pos(n))
+	}
+	if fd.Type.TypeParams != nil {
+		return nil, fmt.Errorf("%s: generic function %s", b.pos(n), name)
+	}
+	params, _ := kParams(fd.Type.Params)
+	args, err := f.args(n, params, name)
+	if err != nil {
+		return nil, err
+	}
+	b.stack = append(b.stack, name)
+	defer func() { b.stack = b.stack[:len(b.stack)-1] }()
+	g := &kframe{b: b, vars: map[string]*kvar{}, lconsts: map[string]kval{}, prefix: name + "_"}
+	if fd.Recv != nil {
+		if recvArg == "" || len(fd.Recv.List) != 1 || len(fd.Recv.List[0].Names) != 1 {
+			return nil, fmt.Errorf("%s: unsupported receiver of %s", b.pos(n), name)
+		}
+		g.recv = fd.Recv.List[0].Names[0].Name
+		g.vars[g.recv] = &kvar{val: kvalue{kind: vRecv}}
+	}
+	for i, p := range params {
+		if p.name == "" || p.name == "_" {
+			continue
+		}
+		v, err := g.bind(p.name, args[i], n)
+		if err != nil {
+			return nil, err
+		}
+		g.vars[p.name] = &kvar{val: v}
+	}
+	return g.run(fd)
+}
+
+// ---- statements ----------------------------------------------------------------------------
+
+// run executes the body of fd in frame f (parameters are already bound) and returns the results
+func (f *kframe) run(fd *ast.FuncDecl) ([]kvalue, error) {
+	b := f.b
+	results, named := kParams(fd.Type.Results)
+	if named {
+		for _, r := range results {
+			if r.name == "" || r.name == "_" {
+				return nil, fmt.Errorf("%s: unnamed result among named ones", b.pos(fd))
+			}
+			z, err := f.zero(r.ts, fd)
+			if err != nil {
+				return nil, err
+			}
+			if z, err = f.bind(r.name, z, fd); err != nil {
+				return nil, err
+			}
+			f.vars[r.name] = &kvar{val: z}
+		}
+	}
+	if fd.Body == nil {
+		return nil, fmt.Errorf("%s: %s has no body", b.pos(fd), fd.Name.Name)
+	}
+	last := len(fd.Body.List) - 1
+	for i, st := range fd.Body.List {
+		switch s := st.(type) {
+		case *ast.EmptyStmt:
+		case *ast.AssignStmt:
+			if err := f.assign(s); err != nil {
+				return nil, err
+			}
+		case *ast.IncDecStmt:
+			op := token.ADD
+			if s.Tok == token.DEC {
+				op = token.SUB
+			}
+			if err := f.opAssign(s, s.X, op, &ast.BasicLit{ValuePos: s.Pos(), Kind: token.INT, Value: "1"}); err != nil {
+				return nil, err
+			}
+		case *ast.DeclStmt:
+			if err := f.decl(s); err != nil {
+				return nil, err
+			}
+		case *ast.ExprStmt:
+			call, ok := s.X.(*ast.CallExpr)
+			if !ok || !f.top || f.recv == "" || !f.isRecv(f.recv) || kCallName(call.Fun) != f.recv+".client.MarkCommitOffsets" {
+				return nil, fmt.Errorf("%s: unsupported expression statement (only the final %s.client.MarkCommitOffsets(...) of Commit)", b.pos(s), f.recv)
+			}
+			if i != last {
+				return nil, fmt.Errorf("%s: MarkCommitOffsets is not the last statement of Commit", b.pos(s))
+			}
+			if len(call.Args) != 1 || call.Ellipsis.IsValid() {
+				return nil, fmt.Errorf("%s: MarkCommitOffsets takes one argument", b.pos(s))
+			}
+			v, err := f.expr(call.Args[0])
+			if err != nil {
+				return nil, err
+			}
+			if v, err = f.conform(v, kTyOuter, call.Args[0]); err != nil {
+				return nil, err
+			}
+			b.effect = &v
+			if len(results) != 0 {
+				return nil, fmt.Errorf("%s: Commit has results", b.pos(fd))
+			}
+			return nil, nil
+		case *ast.ReturnStmt:
+			if i != last {
+				return nil, fmt.Errorf("%s: return is not the last statement", b.pos(s))
+			}
+			if len(s.Results) == 0 {
+				if len(results) != 0 && !named {
+					return nil, fmt.Errorf("%s: bare return without named results", b.pos(s))
+				}
+				var out []kvalue
+				for _, r := range results {
+					out = append(out, f.vars[r.name].val)
+				}
+				return out, nil
+			}
+			var vals []kvalue
+			if call, ok := s.Results[0].(*ast.CallExpr); ok && len(s.Results) == 1 && len(results) != 1 {
+				vs, err := f.call(call) // return f(..) passing several values through
+				if err != nil {
+					return nil, err
+				}
+				vals = vs
+			} else {
+				for _, rx := range s.Results {
+					v, err := f.expr(rx)
+					if err != nil {
+						return nil, err
+					}
+					vals = append(vals, v)
+				}
+			}
+			if len(vals) != len(results) {
+				return nil, fmt.Errorf("%s: wrong number of results", b.pos(s))
+			}
+			for k := range vals {
+				v, err := f.conform(vals[k], results[k].ts, s)
+				if err != nil {
+					return nil, err
+				}
+				vals[k] = v
+			}
+			return vals, nil
+		default:
+			return nil, fmt.Errorf("%s: unsupported statement %T", b.pos(st), st)
+		}
+	}
+	if len(results) != 0 {
+		return nil, fmt.Errorf("%s: %s: no return statement", b.pos(fd), fd.Name.Name)
+	}
+	return nil, nil
+}
+
+var kOpAssign = map[token.Token]token.Token{
+	token.ADD_ASSIGN: token.ADD, token.SUB_ASSIGN: token.SUB, token.MUL_ASSIGN: token.MUL,
+	token.SHL_ASSIGN: token.SHL, token.SHR_ASSIGN: token.SHR, token.AND_ASSIGN: token.AND, token.OR_ASSIGN: token.OR,
+}
+
+func (f *kframe) opAssign(at ast.Node, lhs ast.Expr, op token.Token, rhs ast.Expr) error {
+	l, err := f.intExpr(lhs)
+	if err != nil {
+		return err
+	}
+	r, err := f.intExpr(rhs)
+	if err != nil {
+		return err
+	}
+	v, err := f.binary(at, op, l, r)
+	if err != nil {
+		return err
+	}
+	return f.store(lhs, kInt(v), false, at)
+}
+
+func (f *kframe) assign(s *ast.AssignStmt) error {
+	b := f.b
+	if op, ok := kOpAssign[s.Tok]; ok {
+		if len(s.Lhs) != 1 || len(s.Rhs) != 1 {
+			return fmt.Errorf("%s: unsupported assignment", b.pos(s))
+		}
+		return f.opAssign(s, s.Lhs[0], op, s.Rhs[0])
+	}
+	if s.Tok != token.DEFINE && s.Tok != token.ASSIGN {
+		return fmt.Errorf("%s: unsupported assignment operator %s", b.pos(s), s.Tok)
+	}
+	var vals []kvalue
+	if call, ok := s.Rhs[0].(*ast.CallExpr); ok && len(s.Rhs) == 1 && len(s.Lhs) > 1 {
+		vs, err := f.call(call)
+		if err != nil {
+			return err
+		}
+		vals = vs
+	} else {
+		for _, rx := range s.Rhs { // all right-hand sides first (parallel assignment)
+			v, err := f.expr(rx)
+			if err != nil {
+				return err
+			}
+			vals = append(vals, v)
+		}
+	}
+	if len(vals) != len(s.Lhs) {
+		return fmt.Errorf("%s: %d values assigned to %d targets", b.pos(s), len(vals), len(s.Lhs))
+	}
+	if s.Tok == token.DEFINE {
+		fresh := false
+		for _, lx := range s.Lhs {
+			id, ok := lx.(*ast.Ident)
+			if !ok {
+				return fmt.Errorf("%s: target of := is not an identifier", b.pos(s))
+			}
+			if _, ok := f.vars[id.Name]; !ok && id.Name != "_" {
+				fresh = true
+			}
+		}
+		if !fresh {
+			return fmt.Errorf("%s: no new variable on the left of :=", b.pos(s))
+		}
+	}
+	for k, lx := range s.Lhs {
+		if err := f.store(lx, vals[k], s.Tok == token.DEFINE, s); err != nil {
+			return err
+		}
+	}
+	return nil
+}
+
+// store assigns v to the target lhs: identifier, field of a local EpochOffset, element of a local map
+func (f *kframe) store(lhs ast.Expr, v kvalue, define bool, at ast.Node) error {
+	b := f.b
+	switch t := lhs.(type) {
+	case *ast.ParenExpr:
+		return f.store(t.X, v, define, at)
+	case *ast.Ident:
+		if t.Name == "_" {
+			return nil
+		}
+		if _, ok := f.lconsts[t.Name]; ok {
+			return fmt.Errorf("%s: assignment to constant %s", b.pos(at), t.Name)
+		}
+		cur, exists := f.vars[t.Name]
+		if !exists {
+			if !define {
+				return fmt.Errorf("%s: assignment to undeclared %s", b.pos(at), t.Name)
+			}
+			if v.kind == vInt && v.i.ty == "" { // x := const has type int
+				iv, err := b.asTyped(v.i, kI64, at)
+				if err != nil {
+					return err
+				}
+				v = kInt(iv)
+			}
+			if v.kind == vRecv {
+				return fmt.Errorf("%s: copy of the receiver", b.pos(at))
+			}
+			nv, err := f.bind(t.Name, v, at)
+			if err != nil {
+				return err
+			}
+			f.vars[t.Name] = &kvar{val: nv}
+			return nil
+		}
+		if cur.val.kind != v.kind {
+			return fmt.Errorf("%s: assignment changes the kind of %s", b.pos(at), t.Name)
+		}
+		switch v.kind {
+		case vInt:
+			iv, err := b.asTyped(v.i, cur.val.i.ty, at)
+			if err != nil {
+				return err
+			}
+			v = kInt(iv)
+		case vMap:
+			if cur.val.m.ty != v.m.ty {
+				return fmt.Errorf("%s: assignment changes the map type of %s", b.pos(at), t.Name)
+			}
+		case vRecv, vEvent, vRecord:
+			return fmt.Errorf("%s: assignment to %s", b.pos(at), t.Name)
+		}
+		nv, err := f.bind(t.Name, v, at)
+		if err != nil {
+			return err
+		}
+		cur.val = nv
+		return nil
+	case *ast.SelectorExpr:
+		id, ok := t.X.(*ast.Ident)
+		if !ok || define {
+			return fmt.Errorf("%s: unsupported assignment target", b.pos(at))
+		}
+		cur, exists := f.vars[id.Name]
+		if !exists || cur.val.kind != vEO {
+			return fmt.Errorf("%s: field assignment to %s, which is not a local kgo.EpochOffset", b.pos(at), kCallName(t))
+		}
+		want := map[string]kty{"Offset": kI64, "Epoch": kI32}[t.Sel.Name]
+		if want == "" || v.kind != vInt {
+			return fmt.Errorf("%s: unsupported field assignment %s", b.pos(at), kCallName(t))
+		}
+		iv, err := b.asTyped(v.i, want, at)
+		if err != nil {
+			return err
+		}
+		n := b.fresh(f.prefix + id.Name + "_" + t.Sel.Name)
+		b.let(n, iv.term)
+		if t.Sel.Name == "Offset" {
+			cur.val.off = n
+		} else {
+			cur.val.epoch = n
+		}
+		return nil
+	case *ast.IndexExpr:
+		id, ok := t.X.(*ast.Ident)
+		if !ok || define {
+			return fmt.Errorf("%s: unsupported assignment target", b.pos(at))
+		}
+		cur, exists := f.vars[id.Name]
+		if !exists || cur.val.kind != vMap {
+			return fmt.Errorf("%s: index assignment to %s, which is not a local map", b.pos(at), id.Name)
+		}
+		kt, et := kMapTypes(cur.val.m.ty)
+		k, err := f.expr(t.Index)
+		if err != nil {
+			return err
+		}
+		if k, err = f.conform(k, kt, t.Index); err != nil {
+			return err
+		}
+		if v, err = f.conform(v, et, at); err != nil {
+			return err
+		}
+		// the stored terms are SSA names or closed terms over them: they keep their meaning
+		cur.val.m.store(k, v)
+		return nil
+	}
+	return fmt.Errorf("%s: unsupported assignment target %T", b.pos(at), lhs)
+}
+
+func (f *kframe) decl(s *ast.DeclStmt) error {
+	b := f.b
+	gd, ok := s.Decl.(*ast.GenDecl)
+	if !ok {
+		return fmt.Errorf("%s: unsupported declaration", b.pos(s))
+	}
+	for _, sp := range gd.Specs {
+		vs, ok := sp.(*ast.ValueSpec)
+		if !ok {
+			return fmt.Errorf("%s: unsupported declaration", b.pos(s))
+		}
+		switch gd.Tok {
+		case token.CONST:
+			for i, nm := range vs.Names {
+				v, err := b.constSpec(vs, i, f)
+				if err != nil {
+					return err
+				}
+				if nm.Name == "_" {
+					continue
+				}
+				if _, ok := f.vars[nm.Name]; ok {
+					return fmt.Errorf("%s: %s redeclared", b.pos(vs), nm.Name)
+				}
+				f.lconsts[nm.Name] = v
+			}
+		case token.VAR:
+			if len(vs.Values) != 0 && len(vs.Values) != len(vs.Names) {
+				return fmt.Errorf("%s: unsupported var declaration", b.pos(vs))
+			}
+			var vals []kvalue
+			for i := range vs.Names {
+				var v kvalue
+				var err error
+				if len(vs.Values) == 0 {
+					if vs.Type == nil {
+						return fmt.Errorf("%s: var without type and value", b.pos(vs))
+					}
+					v, err = f.zero(kTypeString(vs.Type), vs)
+				} else {
+					if v, err = f.expr(vs.Values[i]); err == nil && vs.Type != nil {
+						v, err = f.conform(v, kTypeString(vs.Type), vs.Values[i])
+					}
+				}
+				if err != nil {
+					return err
+				}
+				vals = append(vals, v)
+			}
+			for i, nm := range vs.Names {
+				if _, ok := f.vars[nm.Name]; ok {
+					return fmt.Errorf("%s: %s redeclared", b.pos(vs), nm.Name)
+				}
+				if _, ok := f.lconsts[nm.Name]; ok {
+					return fmt.Errorf("%s: %s redeclared", b.pos(vs), nm.Name)
+				}
+				if err := f.store(nm, vals[i], true, vs); err != nil {
+					return err
+				}
+			}
+		default:
+			return fmt.Errorf("%s: unsupported declaration", b.pos(s))
+		}
+	}
+	return nil
+}
+
+// ---- definitions ---------------------------------------------------------------------------
+
+func (b *kbuild) reset() {
+	b.lets, b.stack, b.effect = nil, nil, nil
+	b.used = map[string]bool{}
+	for _, r := range kReserved {
+		b.used[r] = true
+	}
+}
+
+func (b *kbuild) body() string {
+	s := strings.Join(b.lets, "\n")
+	if s != "" {
+		s += "\n"
+	}
+	return s
+}
+
+// kFunc translates one packing function. Returns the Coq definition text.
+func (b *kbuild) kFunc(fd *ast.FuncDecl) (string, error) {
+	b.reset()
+	b.stack = []string{fd.Name.Name}
+	f := &kframe{b: b, vars: map[string]*kvar{}, lconsts: map[string]kval{}}
+	var coqParams []string
+	params, _ := kParams(fd.Type.Params)
+	if fd.Type.TypeParams != nil {
+		return "", fmt.Errorf("%s: generic function %s", b.pos(fd), fd.Name.Name)
+	}
+	for _, p := range params {
+		if p.name == "" || p.name == "_" {
+			return "", fmt.Errorf("%s: %s: unnamed parameter", b.pos(fd), fd.Name.Name)
+		}
+		if b.used[p.name] || b.used[p.name+"_Offset"] || b.used[p.name+"_LeaderEpoch"] {
+			return "", fmt.Errorf("%s: %s: parameter name %s is not usable in the generated definition", b.pos(fd), fd.Name.Name, p.name)
+		}
+		if p.ts == kTyRecord {
+			f.vars[p.name] = &kvar{val: kvalue{kind: vRecord, prefix: p.name}}
+			b.used[p.name+"_Offset"], b.used[p.name+"_LeaderEpoch"] = true, true
+			coqParams = append(coqParams, p.name+"_Offset", p.name+"_LeaderEpoch")
+			continue
+		}
+		t, ok := b.typeNames[p.ts]
+		if !ok {
+			return "", fmt.Errorf("%s: %s: parameter %s has unsupported type %s", b.pos(fd), fd.Name.Name, p.name, p.ts)
+		}
+		b.used[p.name] = true
+		f.vars[p.name] = &kvar{val: kInt(kval{term: p.name, ty: t})}
+		coqParams = append(coqParams, p.name)
+	}
+	if fd.Type.Results == nil {
+		return "", fmt.Errorf("%s: %s: no result", b.pos(fd), fd.Name.Name)
+	}
+	vals, err := f.run(fd)
 	if err != nil {
 		return "", err
 	}
-	rPart, err := role(kPart)
-	if err != nil {
+	var comps []string
+	for _, v := range vals {
+		switch v.kind {
+		case vInt:
+			comps = append(comps, v.i.term)
+		case vEO:
+			comps = append(comps, v.off, v.epoch)
+		default:
+			return "", fmt.Errorf("%s: %s: unsupported result kind", b.pos(fd), fd.Name.Name)
+		}
+	}
+	retTy, res := "Z", ""
+	switch len(comps) {
+	case 1:
+		res = comps[0]
+	case 2:
+		retTy, res = "Z * Z", "("+comps[0]+", "+comps[1]+")"
+	default:
+		return "", fmt.Errorf("%s: %s: %d result components", b.pos(fd), fd.Name.Name, len(comps))
+	}
+	return fmt.Sprintf("Definition gen_%s (%s : Z) : %s :=\n%s  %s.\n", fd.Name.Name, strings.Join(coqParams, " "), retTy, b.body(), res), nil
+}
+
+// kCommit executes Plugin.Commit symbolically and reads the marked position off the argument of
+// p.client.MarkCommitOffsets, which must be the map { p.config.Topics[i]: { partition: EpochOffset } }.
+func (b *kbuild) kCommit(fd *ast.FuncDecl) (string, error) {
+	b.reset()
+	b.stack = []string{"Commit"}
+	params, _ := kParams(fd.Type.Params)
+	if len(params) != 1 || params[0].ts != kTyEvent || params[0].name == "" || params[0].name == "_" {
+		return "", fmt.Errorf("%s: Commit: one named parameter of type *pipeline.Event expected", b.pos(fd))
+	}
+	if fd.Type.Results != nil && len(fd.Type.Results.List) != 0 {
+		return "", fmt.Errorf("%s: Commit has results", b.pos(fd))
+	}
+	const evp = "event" // Coq parameters event_SourceID event_Offset, whatever the Go parameter is called
+	b.used[evp+"_SourceID"], b.used[evp+"_Offset"] = true, true
+	f := &kframe{b: b, vars: map[string]*kvar{}, lconsts: map[string]kval{}, top: true}
+	f.recv = fd.Recv.List[0].Names[0].Name
+	f.vars[f.recv] = &kvar{val: kvalue{kind: vRecv}}
+	f.vars[params[0].name] = &kvar{val: kvalue{kind: vEvent, prefix: evp}}
+	if _, err := f.run(fd); err != nil {
 		return "", err
 	}
-	if kOff != vOff {
-		return "", fmt.Errorf("Commit: marked value %s is not the result of disassembleOffset", kOff)
+	if b.effect == nil {
+		return "", fmt.Errorf("%s: Commit does not end with %s.client.MarkCommitOffsets(...)", b.pos(fd), f.recv)
 	}
-	return fmt.Sprintf(`(* Plugin.Commit: %s, %s := disassembleSourceID(event.SourceID); %s := disassembleOffset(event.Offset);
-   MarkCommitOffsets({ Topics[%s]: { %s: %s } }).   Result: (topic index, partition key, (Offset, Epoch) to mark) *)
+	outer := b.effect.m
+	if len(outer.entries) != 1 {
+		return "", fmt.Errorf("%s: Commit: the map passed to MarkCommitOffsets has %d topic entries that may be distinct (exactly one expected)", b.pos(fd), len(outer.entries))
+	}
+	topic, inner := outer.entries[0].key, outer.entries[0].val.m
+	if len(inner.entries) != 1 {
+		return "", fmt.Errorf("%s: Commit: the partition map passed to MarkCommitOffsets has %d entries that may be distinct (exactly one expected)", b.pos(fd), len(inner.entries))
+	}
+	part, eo := inner.entries[0].key, inner.entries[0].val
+	return fmt.Sprintf(`(* Plugin.Commit, executed symbolically (helpers inlined): MarkCommitOffsets({ Topics[i]: { partition: EpochOffset } }).
+   Result: (topic index i, partition key, (Offset, Epoch) to mark) *)
 Definition gen_commit_target (event_SourceID event_Offset : Z) : Z * Z * (Z * Z) :=
-  let sid := gen_disassembleSourceID event_SourceID in
-  let sid_fst := fst sid in
-  let sid_snd := snd sid in
-  (%s, %s, gen_disassembleOffset event_Offset).
-`, vIndex, vPart, vOff, kIndex, kPart, kOff, rIndex, rPart), nil
+%s  (%s, %s, (%s, %s)).
+`, b.body(), topic.idx, part.i.term, eo.off, eo.epoch), nil
 }
 
 func kHasCall(root ast.Node, name string) bool {
@@ -541,7 +1424,7 @@ func genKafka(repo string) (string, string, error) {
 		return "", "", err
 	}
 	// pipeline.SourceID must be an unsigned 64-bit integer
-	typeNames := map[string]kty{"int": kI64, "int64": kI64, "int32": kI32, "uint64": kU64}
+	typeNames := kIntTypeNames()
 	srcIDFound := false
 	pfiles, _ := filepath.Glob(filepath.Join(repo, "pipeline", "*.go"))
 	sort.Strings(pfiles)
@@ -580,40 +1463,64 @@ func genKafka(repo string) (string, string, error) {
 	typeNames["pipeline.SourceID"] = kU64
 
 	want := []string{"assembleSourceID", "disassembleSourceID", "assembleOffset", "disassembleOffset"}
-	funcs := map[string]*ast.FuncDecl{}
+	b := &kbuild{fset: fset, typeNames: typeNames, consts: map[string]*kconst{},
+		funcs: map[string]*ast.FuncDecl{}, methods: map[string]*ast.FuncDecl{}, gen: map[string]bool{}}
 	var commit, start *ast.FuncDecl
 	for _, d := range f.Decls {
-		fd, ok := d.(*ast.FuncDecl)
-		if !ok || fd.Body == nil {
-			continue
-		}
-		if fd.Recv == nil {
-			funcs[fd.Name.Name] = fd
-			continue
-		}
-		if len(fd.Recv.List) == 1 && kTypeString(fd.Recv.List[0].Type) == "*Plugin" && len(fd.Recv.List[0].Names) == 1 {
-			switch fd.Name.Name {
-			case "Commit":
-				commit = fd
-			case "Start":
-				start = fd
+		switch dd := d.(type) {
+		case *ast.GenDecl:
+			switch dd.Tok {
+			case token.CONST:
+				for _, sp := range dd.Specs {
+					vs := sp.(*ast.ValueSpec)
+					for i, nm := range vs.Names {
+						b.consts[nm.Name] = &kconst{spec: vs, pos: i}
+					}
+				}
+			case token.TYPE: // a package-level type that redefines a name of the fragment would change its meaning
+				for _, sp := range dd.Specs {
+					ts := sp.(*ast.TypeSpec)
+					if _, ok := typeNames[ts.Name.Name]; ok {
+						return "", "", fmt.Errorf("%s: kafka.go redefines the type name %s", fset.Position(ts.Pos()), ts.Name.Name)
+					}
+				}
+			}
+		case *ast.FuncDecl:
+			if dd.Body == nil {
+				continue
+			}
+			if dd.Recv == nil {
+				b.funcs[dd.Name.Name] = dd
+				continue
+			}
+			if len(dd.Recv.List) == 1 && kTypeString(dd.Recv.List[0].Type) == "*Plugin" && len(dd.Recv.List[0].Names) == 1 {
+				b.methods[dd.Name.Name] = dd
+				switch dd.Name.Name {
+				case "Commit":
+					commit = dd
+				case "Start":
+					start = dd
+				}
 			}
 		}
 	}
 	var out strings.Builder
 	out.WriteString(`(* GENERATED from /repo/plugin/input/kafka/{kafka.go,client.go} by harness/gen (translator "kafka") — do not edit.
-   Bodies of the packing functions in the integer operators of Model/KafkaInt.v; Go int = I64. *)
+   Bodies of the packing functions in the integer operators of Model/KafkaInt.v; Go int = I64.
+   Every assignment of a Go variable has its own name (x, x_1, x_2 ...). *)
 From Coq Require Import ZArith.
 From Verif Require Import Model.KafkaInt.
 Open Scope Z_scope.
 
 `)
 	for _, name := range want {
-		fd := funcs[name]
-		if fd == nil {
+		if b.funcs[name] == nil {
 			return "", "", fmt.Errorf("function %s not found in kafka.go", name)
 		}
-		def, err := kFunc(fset, fd, typeNames)
+		b.gen[name] = true
+	}
+	for _, name := range want {
+		def, err := b.kFunc(b.funcs[name])
 		if err != nil {
 			return "", "", err
 		}
@@ -622,7 +1529,7 @@ Open Scope Z_scope.
 	if commit == nil || start == nil {
 		return "", "", fmt.Errorf("Plugin.Commit / Plugin.Start not found")
 	}
-	cdef, err := kCommit(fset, commit)
+	cdef, err := b.kCommit(commit)
 	if err != nil {
 		return "", "", err
 	}
